@@ -105,6 +105,12 @@ fn c15e_convert_group_preserves_content() {
     let newer = WmoGroupFlags::HAS_MORE_MOTION_TYPES | WmoGroupFlags::USE_SCENE_GRAPH | WmoGroupFlags::EXTERIOR_BSP | WmoGroupFlags::MOUNT_ALLOWED;
     assert!((g.header.flags ^ f0) & !newer == WmoGroupFlags::empty(), "conversion changed a group flag that exists in every version");
     if to >= WmoVersion::Legion { assert!(g.header.flags == f0, "conversion to Legion or later changed group flags"); }
+    // the three motion / scene-graph / exterior-BSP flags exist from Cataclysm on (wmo_group_types.rs docs):
+    // converting to Cataclysm or later keeps them
+    let cata = WmoGroupFlags::HAS_MORE_MOTION_TYPES | WmoGroupFlags::USE_SCENE_GRAPH | WmoGroupFlags::EXTERIOR_BSP;
+    if to >= WmoVersion::Cataclysm {
+        assert!((g.header.flags ^ f0) & cata == WmoGroupFlags::empty(), "conversion to Cataclysm or later dropped a group flag that exists in the target version");
+    }
     assert!(g.vertices.len() == 1 && g.normals.len() == 1 && g.tex_coords.len() == 1 && g.batches.len() == 1 && g.indices.len() == 3
         && g.vertex_colors.as_ref().unwrap().len() == 1 && g.bsp_nodes.as_ref().unwrap().len() == 1 && g.doodad_refs.as_ref().unwrap().len() == 1,
         "group conversion changed the length of a list");
